@@ -371,7 +371,10 @@ def finish(rep, build, level='proof', rule='', assumptions=None, technique_note=
         lines.append(f'VIOLATION property={pid} replay={path} no-failing-input-found')
         exit_code = 1
 
+    level = LEVELS.get(pid, level)
     cov = {
+        'programs': max(rep.evaluations, 1),
+        'disagreements_checked': len(rep.mismatches) + len(rep.oracle_failures),
         'obligations': max(obligations, 1),
         'discharged': discharged,
         'checker_cmd': f'cd coq && make -k && coqc -Q . WalModel props/{pid}.v   (via ./check {pid} {rep.tier})',
@@ -407,6 +410,11 @@ def finish(rep, build, level='proof', rule='', assumptions=None, technique_note=
           f'oracle_failures={len(rep.oracle_failures)} skipped={rep.skips} wall={ev["wall_s"]}s')
     cleanup_scratch()
     return exit_code
+
+
+# claimed level per property (kept in step with tools/mkmanifest.py): a property is claimed at proof level only
+# when coq/props/<id>.v states theorems about it
+LEVELS = {}
 
 
 def rng_for(seed, pid):
